@@ -112,7 +112,7 @@ def scenario(rng, idx):
         edits = {n0: f"edited-{n0}-next-to-a-dangling-link".encode()}
     corrupt = [n for n in ws_files if rng.random() < 0.2]          # cache objects tampered with after they were added
     corrupt_target = rng.random() < 0.3
-    return dict(dangling=dangling, corrupt=corrupt, corrupt_target=corrupt_target, cls=cls.__name__, link=link, ws_files=ws_files, ws_is_file=ws_is_file, target=target_kind, relink=relink, prompt=prompt,
+    return dict(trailing_sep=rng.random() < 0.25, dangling=dangling, corrupt=corrupt, corrupt_target=corrupt_target, cls=cls.__name__, link=link, ws_files=ws_files, ws_is_file=ws_is_file, target=target_kind, relink=relink, prompt=prompt,
                 edits=edits, extra=extra, lost=lost, lose_dir_obj=lose_dir_obj)
 
 
@@ -178,7 +178,9 @@ def run_one(sc):
         before = snapshot(ws)
         outcome = "returned"
         try:
-            checkout(ws, FS, tgt, cache, force=False, relink=sc["relink"], prompt=(None if sc["prompt"] is None else (lambda msg: False)))
+            # the same directory may be spelled with a trailing separator ("data/"): the guards must not depend on the spelling
+            spelled = ws + os.sep if (sc.get("trailing_sep") and os.path.isdir(ws)) else ws
+            checkout(spelled, FS, tgt, cache, force=False, relink=sc["relink"], prompt=(None if sc["prompt"] is None else (lambda msg: False)))
         except Exception as e:  # noqa: BLE001
             outcome = type(e).__name__
         after = snapshot(ws)
@@ -220,7 +222,7 @@ def main():
     print(json.dumps({
         "evaluations": evaluations, "distinct_nontrivial": nontrivial, "n_failures": len(failures), "failures": failures[:5],
         "bound": f"{n} seeded workspace histories: <=4 tracked files in <=3 directory levels, edits/additions/dangling symlinks/lost or tampered cache objects, "
-                 "targets none/same/other/file/subset, 2 store classes x 3 link types, relink on/off, prompt absent/declining, force never",
+                 "targets none/same/other/file/subset, 2 store classes x 3 link types, relink on/off, prompt absent/declining, force never; a quarter with the checkout path spelled with a trailing separator",
     }))
 
 
